@@ -69,7 +69,7 @@ P = {'id': 'C11',
              'thread count >= 1 (the harness reads it off AdvancedRadixSort::stats().threads_used)',
              'models of code that is NOT in the pinned tree (stated as such): the LSD loop that skips constant-digit passes, the MSD early return on '
              'depth >= max_bytes - each with the theorem that says what such a change must compute and a refutation of the wrong variant; merge_runs in '
-             'passes of merge_ways runs IS in the tree since fix a002a0e (the oldest merge_ways runs are merged into a new run until at most merge_ways are '
+             'passes of merge_ways runs IS in the tree since fix 824df8c (the oldest merge_ways runs are merged into a new run until at most merge_ways are '
              'left): the model merges every group once and then the partial results - a different grouping, proved to compute the same list as the single '
              'pass (external_sort_multipass_sorts), which is what the correspondence check compares',
              'oracle breadth (harness/src/c11_wide.rs, spec-only cells): operation histories on one RadixSort / AdvancedRadixSort / CacheObliviousSort / '
